@@ -8,6 +8,7 @@ t.init <raises e.g. 10>                      -> ok
 t.burst <1|2> <symbol…>                      -> <seq> <label> <stream> <cc> <new events of observer 0>|<observer 1>|…
 t.flush                                      -> <new events of observer 0>|…   (end_all_transmissions)
 t.state                                      -> <slot 1> / <slot 2>
+t.diag <sap> <stdout dead 0|1> <user data hex|->  -> skipped | printed | print-failed | undecodable   (stateless)
 ```
 symbols: `vh <hex> <cc>` voice LC header, `tm <hex> <cc>` terminator, `dh <btf|-> <a> <sap> <hex> <cc>` data
 header, `cs <pre> <btf> <hex> <cc>` CSBK, `r12|r34|r1 <hex> <cc>` rate-x block, `ot <cc>` other data type,
@@ -122,6 +123,13 @@ def trackerStep (st : TrackerState) (op : String) (args : List String) : Tracker
       let news := (t.obs.zip t'.obs).map fun (o, o') => eventsStr (o'.log.drop o.log.length)
       (some t', if news.isEmpty then "-" else "|".intercalate news)
     | none => (st, "ERR no-terminal")
+  | "t.diag", [sap, dead, hex] =>
+    match sap.toNat?, flag dead, (if hex == "-" then some [] else hexToBytes hex) with
+    | some sap, some dead, some data =>
+      (st, match diagOutcomeData dead sap data with
+        | .skipped => "skipped" | .printed => "printed" | .printFailed => "print-failed"
+        | .undecodable => "undecodable")
+    | _, _, _ => (st, "ERR bad-args")
   | "t.state", [] =>
     match st with
     | some t => (st, slotStr t.s1 ++ " / " ++ slotStr t.s2 ++ " / " ++ toString t.oracle)
